@@ -1,7 +1,7 @@
 """C16 — sample, cycle, subset and chain index maps are mutually consistent."""
 import itertools
 
-from common.framework import Failure, ImplError, Stream
+from common.framework import Failure, ImplError, Stream, case_key
 from props import _maps
 
 ID = 'C16'
@@ -51,12 +51,17 @@ ASSUMPTIONS = []
 RULE = ('exhaustive: (a) every well-formed label vector (cycles 0..K-1 as contiguous ordered blocks, optional -1 gaps '
         'anywhere) of length <= N x every boolean selection vector of its K cycles (N=6 quick, 8 thorough); '
         '(b) every boolean selection vector of length <= L (L=8 quick, 12 thorough) x three fixed recordings '
-        '(dense, mixed lengths with gaps, all separated). Every one of the 12 maps is evaluated on every index 0..size '
-        '(one past the end included) and the 6 projections on distinct values; tokens compared exactly. '
-        'random: K up to 60 cycles, lengths 1..30, gaps, run-structured selections, value vectors shorter/longer than the level. '
-        'malformed: selection vector length != K, repeated / skipped / out-of-order labels (correspondence only). '
+        '(dense, mixed lengths with gaps, all separated). Every one of the 12 maps is compared and checked on every '
+        'EXISTING index of its level (0..size-1) and the 6 projections on value vectors with one distinct value per item '
+        'of their level; tokens compared exactly (index sets as sets). '
+        'random: K up to 60 cycles, lengths 1..30, gaps, run-structured selections. '
+        'Outside the property (recorded as outside-domain:* tags in the distribution, never a disagreement or a failure): '
+        'the answer at the index one past the end of each level, value vectors shorter/longer than their level, and the '
+        'whole malformed stream (selection vector length != K, repeated / skipped / out-of-order labels). '
         'A case is non-trivial when it has an unlabelled sample, an unselected cycle and at least two chains.')
 
+
+_NOTES = {}      # case key -> tags about answers outside the property's domain (filled by compare, read by tags)
 
 
 def _valids_of(case):
@@ -96,13 +101,18 @@ class Exhaustive(Stream):
     def compare(self, case, out, results):
         if isinstance(out, ImplError):
             return 'implementation raised %s: %s' % (out['error'], out['msg'])
-        for (v, vc, vs, vh), o, r in zip(self._items(case), out, results):
-            if not r.ok:
-                return 'valids=%s model answered %s' % (v, r.raw[:100])
-            d = _maps.diff_tables(o['table'], _maps.model_table(r))
-            if d:
-                return 'cv=%s valids=%s %s' % (case['cv'], v, d)
-        return None
+        notes = set()
+        try:
+            for (v, vc, vs, vh), o, r in zip(self._items(case), out, results):
+                if not r.ok:
+                    return 'valids=%s model answered %s' % (v, r.raw[:100])
+                d, nt = _maps.diff_tables(o['table'], _maps.model_table(r), case['cv'], v, (vc, vs, vh))
+                notes.update(nt)
+                if d:
+                    return 'cv=%s valids=%s %s' % (case['cv'], v, d)
+            return None
+        finally:
+            _NOTES[case_key(case)] = sorted(notes)
 
     def holds(self, case, out):
         if isinstance(out, ImplError):
@@ -122,7 +132,7 @@ class Exhaustive(Stream):
             t.append('leading-gap')
         if cv and cv[-1] == -1:
             t.append('trailing-gap')
-        return t
+        return t + _NOTES.pop(case_key(case), [])
 
     def nontrivial(self, case, out):
         return case['K'] >= 3 and -1 in case['cv']
@@ -131,7 +141,6 @@ class Exhaustive(Stream):
 class Single(Stream):
     """One explicit (cv, valids, values) instance; also the replay / shrink format."""
     name = 'maps_random'
-    check_instance = True
 
     def corpus(self):
         return [
@@ -201,19 +210,36 @@ class Single(Stream):
     def ops(self, case, out):
         return [_maps.maps_op(case['cv'], case['valids'], *self._vals(case))]
 
+    def _outside(self, case):
+        """malformed structure (labels repeated / skipped / out of time order, selection vector of another length):
+        the property does not speak about it - answers are recorded as tags, never compared or checked"""
+        return not _maps.well_formed(case['cv'], case['valids'])
+
     def compare(self, case, out, results):
+        if self._outside(case):
+            if isinstance(out, ImplError):
+                note = 'outside-domain:malformed:impl-raises:%s' % out['error']
+            elif not results or not results[0].ok:
+                note = 'outside-domain:malformed:model-rejects'
+            else:
+                d = _maps.first_raw_diff(out['table'], _maps.model_table(results[0]))
+                note = 'outside-domain:malformed:' + ('model-differs:%s' % d if d else 'model-agrees')
+            _NOTES[case_key(case)] = [note]
+            return None
         if isinstance(out, ImplError):
             return 'implementation raised %s: %s' % (out['error'], out['msg'])
         r = results[0]
         if not r.ok:
             return 'model answered %s' % r.raw[:100]
-        return _maps.diff_tables(out['table'], _maps.model_table(r))
+        d, notes = _maps.diff_tables(out['table'], _maps.model_table(r), case['cv'], case['valids'], self._vals(case))
+        _NOTES[case_key(case)] = notes
+        return d
 
     def holds(self, case, out):
+        if self._outside(case):
+            return []
         if isinstance(out, ImplError):
             return [Failure('raises:' + out['error'], out['msg'])]
-        if not self.check_instance:
-            return []
         return _maps.check_instance(case['cv'], case['valids'], *self._vals(case), out)
 
     def tags(self, case, out):
@@ -230,7 +256,7 @@ class Single(Stream):
             runs = [len(list(g)) for k, g in itertools.groupby(v) if k]
             if 1 in runs:
                 t.append('single-cycle-chain')
-        return t
+        return t + _NOTES.pop(case_key(case), [])
 
     def nontrivial(self, case, out):
         S, C = _maps.sizes(case['valids'])
@@ -257,9 +283,9 @@ class Single(Stream):
 
 
 class Malformed(Single):
-    """Inputs outside the documented domain: only model/implementation agreement is checked."""
+    """Inputs outside the property's domain: nothing is compared or checked, the evidence records per case whether
+    model and implementation happen to agree (a generated case that is well-formed after all gets the full check)."""
     name = 'maps_malformed'
-    check_instance = False
 
     def corpus(self):
         return [
@@ -290,10 +316,11 @@ class Malformed(Single):
             yield {'cv': cv, 'valids': v, 'kind': kind}
 
     def tags(self, case, out):
-        return ['kind=%s' % case.get('kind', 'corpus')]
+        return ['kind=%s' % case.get('kind', 'corpus'), 'well-formed-after-all' if not self._outside(case) else 'malformed'] \
+            + _NOTES.pop(case_key(case), [])
 
     def nontrivial(self, case, out):
-        return True
+        return not self._outside(case)
 
     def shrink(self, case):
         return []
